@@ -112,6 +112,41 @@ func genC10(g *Gen) {
 		}
 		g.setMode(0)
 	})
+	// rationals in the correctly rounded regime whose inexactness hides far below the guard digit (guard 0, 4, 5, 9 followed
+	// by eight or more zeros), both signs, under every DefaultRoundingMode
+	g.gridRun(4*2*4, 0.12, func(i int) {
+		gd := []int{0, 4, 5, 9}[i%4]
+		for try := 0; try < 20; try++ {
+			a, b, ok := g.ratFarSticky(gd)
+			if !ok {
+				continue
+			}
+			if (i/4)%2 == 1 {
+				a.Neg(a)
+			}
+			for m := 0; m < 6; m++ {
+				g.setMode(m)
+				g.emit(Ev{"op": "FromRat", "num": bigN(a), "den": bigN(b)})
+			}
+			g.setMode(0)
+			return
+		}
+	})
+	// integers far beyond the range, up to 140 000 digits (the conversion walks them in 18-digit steps; every counter
+	// that grows with the length has to survive): all must come back as the infinity of their sign
+	var hugeDigits []int
+	for k := 6149; k <= 140000; k += 2971 {
+		hugeDigits = append(hugeDigits, k)
+	}
+	g.gridRun(len(hugeDigits)*2, 0.04, func(i int) {
+		v := new(big.Int).Add(pow10(hugeDigits[i/2]), big.NewInt(int64(g.r.Intn(1000))))
+		if i%2 == 1 {
+			v.Neg(v)
+		}
+		g.setMode(g.r.Intn(6))
+		g.emit(Ev{"op": "FromInt", "v": bigN(v)})
+		g.setMode(0)
+	})
 	i64s := []int64{0, 1, -1, math.MaxInt32, math.MinInt32, math.MaxInt64, math.MinInt64, math.MinInt64 + 1, 1 << 53, -(1 << 62)}
 	for !g.w.full() {
 		switch g.r.Intn(9) {
